@@ -255,6 +255,26 @@ theorem defaultsStage_fixed_point (c : Cfg) (d e : Val) (h : defaultsStage c d =
       | panic s => rw [hsd] at h; simp [ofC11] at h
   · cases h
 
+/-! ## the two options that switch the defaulting stages off -/
+
+/-- `SkipNormalization`: the tail of `load` adds no default and does not touch `name` -/
+theorem finishLoad_skip (c : Cfg) (hn : c.opts.skipNormalization = true) (dict : KVs) (hd : dict ≠ [])
+    (hp : c.projectName ≠ "") : finishLoad c dict = .ok dict := by
+  unfold finishLoad
+  cases dict with
+  | nil => exact absurd rfl hd
+  | cons x r => simp [hp, hn]
+
+/-- `SkipDefaultValues`: the defaults stage is the identity on a mapping -/
+theorem defaultsStage_skip (c : Cfg) (hs : c.opts.skipDefaultValues = true) (kvs : KVs) :
+    defaultsStage c (.map kvs) = .ok (.map kvs) := by
+  simp [defaultsStage, hs]
+
+/-- without the option it is `SetDefaultValues` with the regenerated table -/
+theorem defaultsStage_runs (c : Cfg) (hs : c.opts.skipDefaultValues = false) (kvs : KVs) :
+    defaultsStage c (.map kvs) = ofC11 "defaults" (C11.setDefaultValues Gen.defaultValues kvs) := by
+  simp [defaultsStage, hs]
+
 /-! ## the statements at `Pipeline.load` / `Pipeline.loadY` -/
 
 theorem bind_ok {α β : Type} {o : Pipeline.Out α} {f : α → Pipeline.Out β} {b : β} (h : o.bind f = .ok b) :
